@@ -30,16 +30,24 @@ fn mk_identity(_inst: u32, _fail: bool) -> opaque_ke::ksf::Identity {
 pub fn mk_argon_pub(inst: u32) -> argon2::Argon2<'static> {
     mk_argon(inst, false)
 }
-/// instance 0 = Argon2::default(); others = cheaper/different cost parameters
+/// instance 0 = Argon2::default(); 1, 2 = other cost parameters; 3, 4 = keyed (two different secrets);
+/// 5 = another variant and version (Argon2i v0x10); 6, 7 = keyed with an explicit 32-byte output length
+/// (usable only where the OPRF hash is 32 bytes long: elsewhere the instance itself fails)
 fn mk_argon(inst: u32, _fail: bool) -> argon2::Argon2<'static> {
-    if inst == 0 {
-        argon2::Argon2::default()
-    } else {
-        argon2::Argon2::new(
-            argon2::Algorithm::Argon2id,
-            argon2::Version::V0x13,
-            argon2::Params::new(8 * (inst + 1), 1, 1, None).unwrap(),
-        )
+    use argon2::{Algorithm, Argon2, Params, Version};
+    const SECRET_A: &[u8] = b"opaque-verif pepper A";
+    const SECRET_B: &[u8] = b"opaque-verif pepper B";
+    // (where the hash is 32 bytes long an explicit output length of 32 changes nothing: other secrets)
+    const SECRET_C: &[u8] = b"opaque-verif pepper C";
+    const SECRET_D: &[u8] = b"opaque-verif pepper D";
+    match inst {
+        0 => Argon2::default(),
+        3 => Argon2::new_with_secret(SECRET_A, Algorithm::Argon2id, Version::V0x13, Params::new(16, 1, 1, None).unwrap()).unwrap(),
+        4 => Argon2::new_with_secret(SECRET_B, Algorithm::Argon2id, Version::V0x13, Params::new(16, 1, 1, None).unwrap()).unwrap(),
+        5 => Argon2::new(Algorithm::Argon2i, Version::V0x10, Params::new(16, 1, 1, None).unwrap()),
+        6 => Argon2::new_with_secret(SECRET_C, Algorithm::Argon2id, Version::V0x13, Params::new(16, 1, 1, Some(32)).unwrap()).unwrap(),
+        7 => Argon2::new_with_secret(SECRET_D, Algorithm::Argon2id, Version::V0x13, Params::new(16, 1, 1, Some(32)).unwrap()).unwrap(),
+        _ => Argon2::new(Algorithm::Argon2id, Version::V0x13, Params::new(8 * (inst + 1), 1, 1, None).unwrap()),
     }
 }
 
